@@ -282,8 +282,8 @@ def seed_from_init(it, cls, obj, params=None, skip=()):
                 tgt, val = st.target, st.value
             if tgt is None or not (isinstance(tgt, ast.Attribute) and isinstance(tgt.value, ast.Name) and tgt.value.id == "self"):
                 continue
-            if tgt.attr in skip:
-                continue
+            if tgt.attr in skip or repo.resolve(cls, tgt.attr, "setter") is not None:
+                continue  # an assignment through a property setter is a call, not a plain attribute
             try:
                 v = it.eval(val, dict(env), f.module)
             except (AnalysisError, Undecided, Raised, KeyError, RecursionError):
